@@ -12,6 +12,7 @@ context switches), so shrinking moves towards a sequential execution.
 
 import heapq
 import queue as _queue
+import sys
 import threading
 
 READY, BLOCKED, DONE, NEW = "ready", "blocked", "done", "new"
@@ -50,6 +51,8 @@ class Sim:
         self.switches = 0
         self.harness_exc = None
         self.weighted = False  # set by the harness (swarm parameter)
+        self.line_files = None
+        self.line_budget = 0
         CURRENT[0] = self
 
     # ------------------------------------------------------------ history
@@ -88,8 +91,33 @@ class Sim:
         thread._real = real
         real.start()
 
+    # ----------------------------------------------- line level pre-emption
+    def enable_line_preemption(self, files, num=1, den=8, budget=40):
+        """Swarm option: inside the given source files every executed line is
+        a possible pre-emption point (seeded coin, capped count), so that
+        races on state that is not reached through an intercepted primitive
+        are schedulable too."""
+        self.line_files = set(files)
+        self.line_num, self.line_den = num, den
+        self.line_budget = budget
+
+    def _trace_call(self, frame, event, arg):
+        if event == "call" and frame.f_code.co_filename in self.line_files:
+            return self._trace_line
+        return None
+
+    def _trace_line(self, frame, event, arg):
+        if event == "line" and self.line_budget > 0 and not self.aborting \
+                and self.current is not None:
+            if self.ch.chance(self.line_num, self.line_den, "line"):
+                self.line_budget -= 1
+                self.yield_("line:%d" % frame.f_lineno)
+        return self._trace_line
+
     def _bootstrap(self, t):
         t._baton.acquire()
+        if self.line_files:
+            sys.settrace(self._trace_call)
         try:
             if not self.aborting:
                 t._run()
@@ -366,26 +394,33 @@ class SimQueue:
         self.items = []
         self.name = "q"
 
+    def _full(self):
+        return 0 < self.maxsize <= len(self.items)
+
+    # racy look-ahead calls are scheduling points too
     def qsize(self):
+        self.sim.yield_("queue.qsize")
         return len(self.items)
 
     def empty(self):
+        self.sim.yield_("queue.empty")
         return not self.items
 
     def full(self):
-        return 0 < self.maxsize <= len(self.items)
+        self.sim.yield_("queue.full")
+        return self._full()
 
     def put(self, item, block=True, timeout=None):
         sim = self.sim
         sim.yield_("queue.put")
         expired = False
-        while self.full():
+        while self._full():
             if not block or expired:
                 raise _queue.Full
             if timeout is not None and timeout < 0:
                 raise ValueError("'timeout' must be a non-negative number")
             expired = not sim.block(
-                lambda: not self.full(),
+                lambda: not self._full(),
                 None if timeout is None else int(timeout * 1e6),
                 "queue.put.wait")
         self.items.append(item)
@@ -413,3 +448,263 @@ class SimQueue:
 
     def task_done(self):
         pass
+
+
+class SimRLock:
+    """threading.RLock look-alike."""
+
+    def __init__(self):
+        self.sim = cur()
+        self.owner = None
+        self.count = 0
+
+    def acquire(self, blocking=True, timeout=-1):
+        sim = self.sim
+        me = sim.me()
+        sim.yield_("rlock.acquire")
+        if self.owner is me and me is not None:
+            self.count += 1
+            return True
+        expired = False
+        while self.owner is not None:
+            if not blocking or expired:
+                return False
+            expired = not sim.block(lambda: self.owner is None,
+                                    None if timeout is None or timeout < 0
+                                    else int(timeout * 1e6), "rlock.wait")
+        self.owner = me
+        self.count = 1
+        return True
+
+    def release(self):
+        if self.owner is None:
+            raise RuntimeError("cannot release un-acquired lock")
+        self.count -= 1
+        if self.count == 0:
+            self.owner = None
+            self.sim.yield_("rlock.release")
+
+    def __enter__(self):
+        self.acquire()
+        return self
+
+    def __exit__(self, *a):
+        self.release()
+        return False
+
+
+class SimEvent:
+    """threading.Event look-alike."""
+
+    def __init__(self):
+        self.sim = cur()
+        self.flag = False
+
+    def is_set(self):
+        self.sim.yield_("event.is_set")
+        return self.flag
+
+    isSet = is_set
+
+    def set(self):
+        self.flag = True
+        self.sim.yield_("event.set")
+
+    def clear(self):
+        self.sim.yield_("event.clear")
+        self.flag = False
+
+    def wait(self, timeout=None):
+        sim = self.sim
+        sim.yield_("event.wait")
+        if not self.flag:
+            sim.block(lambda: self.flag,
+                      None if timeout is None else int(timeout * 1e6),
+                      "event.wait.block")
+        return self.flag
+
+
+class SimCondition:
+    """threading.Condition look-alike (over a SimLock / SimRLock)."""
+
+    def __init__(self, lock=None):
+        self.sim = cur()
+        self.lock = lock if lock is not None else SimRLock()
+        self.waiters = []
+        self.acquire = self.lock.acquire
+        self.release = self.lock.release
+
+    def __enter__(self):
+        return self.lock.__enter__()
+
+    def __exit__(self, *a):
+        return self.lock.__exit__(*a)
+
+    def wait(self, timeout=None):
+        sim = self.sim
+        token = [False]
+        self.waiters.append(token)
+        # release the lock completely while waiting
+        saved = getattr(self.lock, "count", 1)
+        if isinstance(self.lock, SimRLock):
+            self.lock.count = 1
+        self.lock.release()
+        ok = sim.block(lambda: token[0],
+                       None if timeout is None else int(timeout * 1e6),
+                       "cond.wait")
+        if token in self.waiters:
+            self.waiters.remove(token)
+        self.lock.acquire()
+        if isinstance(self.lock, SimRLock):
+            self.lock.count = saved
+        return ok
+
+    def wait_for(self, predicate, timeout=None):
+        end = None if timeout is None else self.sim.now + int(timeout * 1e6)
+        result = predicate()
+        while not result:
+            remaining = None
+            if end is not None:
+                remaining = (end - self.sim.now) / 1e6
+                if remaining <= 0:
+                    break
+            self.wait(remaining)
+            result = predicate()
+        return result
+
+    def notify(self, n=1):
+        for token in self.waiters[:n]:
+            token[0] = True
+        del self.waiters[:n]
+        self.sim.yield_("cond.notify")
+
+    def notify_all(self):
+        self.notify(len(self.waiters))
+
+    notifyAll = notify_all
+
+
+class SimSemaphore:
+    """threading.Semaphore look-alike."""
+
+    def __init__(self, value=1):
+        self.sim = cur()
+        self.value = value
+
+    def acquire(self, blocking=True, timeout=None):
+        sim = self.sim
+        sim.yield_("sem.acquire")
+        expired = False
+        while self.value <= 0:
+            if not blocking or expired:
+                return False
+            expired = not sim.block(lambda: self.value > 0,
+                                    None if timeout is None
+                                    else int(timeout * 1e6), "sem.wait")
+        self.value -= 1
+        return True
+
+    def release(self, n=1):
+        self.value += n
+        self.sim.yield_("sem.release")
+
+    def __enter__(self):
+        self.acquire()
+        return self
+
+    def __exit__(self, *a):
+        self.release()
+        return False
+
+
+class SimTimer(SimThread):
+    """threading.Timer look-alike: runs `function` after `interval` seconds
+    of simulated time unless cancelled."""
+
+    def __init__(self, interval, function, args=None, kwargs=None):
+        super().__init__()
+        self.interval = interval
+        self.function = function
+        self.t_args = args or ()
+        self.t_kwargs = kwargs or {}
+        self.finished = SimEvent()
+
+    def cancel(self):
+        self.finished.flag = True
+
+    def run(self):
+        self.finished.wait(self.interval)
+        if not self.finished.flag or False:
+            self.function(*self.t_args, **self.t_kwargs)
+        self.finished.flag = True
+
+
+class SimFuture:
+    def __init__(self, sim):
+        self.sim = sim
+        self.done_ = False
+        self.value = None
+        self.exc = None
+        self.callbacks = []
+
+    def done(self):
+        return self.done_
+
+    def result(self, timeout=None):
+        if not self.done_:
+            self.sim.block(lambda: self.done_,
+                           None if timeout is None else int(timeout * 1e6),
+                           "future.result")
+        if not self.done_:
+            raise TimeoutError()
+        if self.exc is not None:
+            raise self.exc
+        return self.value
+
+    def add_done_callback(self, fn):
+        if self.done_:
+            fn(self)
+        else:
+            self.callbacks.append(fn)
+
+
+class SimExecutor:
+    """concurrent.futures.ThreadPoolExecutor look-alike: every task runs in
+    its own simulated thread (so tasks can overtake each other)."""
+
+    def __init__(self, max_workers=None, thread_name_prefix="pool", **kw):
+        self.sim = cur()
+        self.prefix = thread_name_prefix or "pool"
+        self.n = 0
+
+    def submit(self, fn, *args, **kwargs):
+        fut = SimFuture(self.sim)
+
+        def body():
+            try:
+                fut.value = fn(*args, **kwargs)
+            except Abort:
+                raise
+            except BaseException as e:  # behaviour of the code under test
+                fut.exc = e
+            fut.done_ = True
+            for cb in fut.callbacks:
+                cb(fut)
+
+        self.n += 1
+        t = SimThread(target=body, name=f"{self.prefix}{self.n}")
+        t.start()
+        return fut
+
+    def map(self, fn, *iterables):
+        futs = [self.submit(fn, *a) for a in zip(*iterables)]
+        return [f.result() for f in futs]
+
+    def shutdown(self, wait=True, **kw):
+        pass
+
+    def __enter__(self):
+        return self
+
+    def __exit__(self, *a):
+        return False
